@@ -9,6 +9,14 @@
 (*             tq    |-> returned time column / dt as integers ("lin",     *)
 (*                       "log"), tq_ok |-> 1 iff integral to 1e-9,         *)
 (*             x4zero |-> 1 iff the whole X4_Qt column is exactly 0]]      *)
+(* Call histories: consecutive records with first = 0 are further calls on  *)
+(* the analysis object of the preceding record (same sid); the variable ob *)
+(* carries what the object was constructed from and how many calls it has  *)
+(* served.  Such a record must agree with it in everything the constructor *)
+(* sees (clause BadSession otherwise); its expectation is computed from    *)
+(* its own arguments and the trajectory only - ob is not an argument.      *)
+(* rec.render (how the arguments were rendered: dict order, mask dtype,    *)
+(* ...) is likewise not an argument of any expectation.                    *)
 (* For each record the spec runs the loop state machine of Relaxation (one *)
 (* Acc step per accumulated frame pair), then Finish decides the discrete  *)
 (* observables (Why names the clause) and prints the expected rows /       *)
@@ -18,8 +26,14 @@ EXTENDS Relaxation, TLC, Json, IOUtils
 
 Tr == ndJsonDeserialize(IOEnv.TRACE_FILE)
 
-VARIABLES l, bad, st
-vars == <<l, bad, st>>
+VARIABLES l, bad, st, ob
+vars == <<l, bad, st, ob>>
+
+\* what the constructor of the analysis object sees of a record
+Ctor(rec) == [ cls |-> IF rec.op = "log" THEN "log" ELSE "lin", tsq |-> rec.tsq, dt |-> rec.dt,
+               c |-> [rec.c EXCEPT !.q = 0, !.hasCond = 0, !.cond = << >>] ]
+ObNone == [sid |-> 0 - 1, ctor |-> << >>, calls |-> 0]
+SessionOK(rec) == rec.first = 1 \/ (ob.sid = rec.sid /\ ob.ctor = Ctor(rec))
 
 WellFormed(rec) ==
   LET c == rec.c IN
@@ -34,6 +48,7 @@ WellFormed(rec) ==
 NRows(rec) == IF rec.op = "s4" THEN 0 ELSE rec.c.T - 1
 Why(rec) ==
   IF ~WellFormed(rec) THEN "BadInput"
+  ELSE IF ~SessionOK(rec) THEN "BadSession"
   ELSE IF rec.op = "s4" THEN ""
   ELSE IF rec.obs.rows # NRows(rec) THEN "Rows"
   ELSE IF rec.obs.tq_ok # 1 THEN "TimeAxis"
@@ -43,22 +58,25 @@ Why(rec) ==
 
 Expected(rec, state) ==
   [ rec    |-> l, op |-> rec.op, counts |-> state.counts,
+    call   |-> IF rec.first = 1 THEN 1 ELSE ob.calls + 1,
     rows   |-> IF rec.op = "s4" THEN << >>
                ELSE [k \in 1..(rec.c.T - 1) |-> RowT(rec.c, rec.op, k, rec.tsq, rec.dt)],
     s4     |-> IF rec.op = "s4" THEN S4Exp(rec.c, rec.nt, rec.numofq) ELSE << >> ]
 
-Init == /\ l = 1 /\ bad = ""
+Init == /\ l = 1 /\ bad = "" /\ ob = ObNone
         /\ st = IF Len(Tr) >= 1 THEN StInit(Tr[1].c, Tr[1].op, Tr[1].nt) ELSE [done |-> TRUE]
 Acc == /\ l <= Len(Tr) /\ bad = "" /\ ~st.done
        /\ st' = StAcc(Tr[l].c, Tr[l].op, st, FALSE)
-       /\ UNCHANGED <<l, bad>>
+       /\ UNCHANGED <<l, bad, ob>>
 Finish == /\ l <= Len(Tr) /\ bad = "" /\ st.done
           /\ LET w == Why(Tr[l]) IN
              IF w = ""
              THEN /\ PrintT(ToJson(Expected(Tr[l], st)))
                   /\ l' = l + 1 /\ bad' = ""
                   /\ st' = IF l + 1 <= Len(Tr) THEN StInit(Tr[l + 1].c, Tr[l + 1].op, Tr[l + 1].nt) ELSE st
-             ELSE /\ bad' = w /\ UNCHANGED <<l, st>>
+                  /\ ob' = [sid |-> Tr[l].sid, ctor |-> Ctor(Tr[l]),
+                            calls |-> IF Tr[l].first = 1 THEN 1 ELSE ob.calls + 1]
+             ELSE /\ bad' = w /\ UNCHANGED <<l, st, ob>>
 Next == Acc \/ Finish
 Spec == Init /\ [][Next]_vars
 
